@@ -33,8 +33,10 @@ def _run_chunk(ctx, idx, recs, devsets):
     for devs in devsets:
         devset = "{" + ", ".join('"%s"' % d for d in devs) + "}"
         open(os.path.join(sdir, "gen_Trace.cfg"), "w").write(src.replace("@DEVS@", devset))
-        out, rc, dt = ctx._tlc(sdir, "TraceNamesys.tla", "gen_Trace.cfg", ["-workers", "1", "-deadlock"], 3000,
-                               jvm=["-Dtlc2.tool.queue.IStateQueue=StateDeque", "-Xmx1500m"], tag="tr%03d" % idx)
+        out, rc, dt = ctx._tlc(sdir, "TraceNamesys.tla", "gen_Trace.cfg", ["-workers", "1", "-deadlock"], 7200,
+                               jvm=["-Dtlc2.tool.queue.IStateQueue=StateDeque", "-Xmx1500m",
+                                    # many short single-worker TLC processes side by side: one GC thread and C1 only
+                                    "-XX:ParallelGCThreads=1", "-XX:TieredStopAtLevel=1"], tag="tr%03d" % idx)
         hwm = max([int(x) for x in re.findall(r'<<"TRACE_HWM", (\d+)>>', out)] or [0])
         viol = re.search(r"Error: (Invariant|Action property) (\S+) is violated", out)
         clean = "Error:" not in out.replace("Error: Postcondition", "X")
@@ -115,8 +117,8 @@ def run(ctx):
             gen("GenNamesysD3.cfg" if q else "GenNamesysD4.cfg", workers=4),
             (gen("GenNamesysPubSim.cfg", simulate=10, depth=1500) if q else gen("GenNamesysPub.cfg", workers=4)),
             (gen("GenNamesysChainSim.cfg", simulate=10, depth=2500) if q else gen("GenNamesysChain.cfg", workers=4)),
-            gen("GenNamesysSim.cfg", simulate=6 if q else 120, depth=1000),
-            gen("GenNamesysSim2.cfg", simulate=3 if q else 60, depth=1000)]
+            gen("GenNamesysSim.cfg", simulate=6 if q else 80, depth=1000),
+            gen("GenNamesysSim2.cfg", simulate=3 if q else 40, depth=1000)]
     import time as _t
 
     def staggered(i_f):
@@ -129,7 +131,7 @@ def run(ctx):
     d4, pub, chn, sim, sim2 = outs[3:]
     # the two large families: quick = TLC-simulated length-4 sequences over the same alphabets; thorough = seeded
     # sample of ALL length-3 sequences.  The one-name core family is always replayed completely.
-    k = 600 if q else 8000
+    k = 600 if q else 4000
     pub = ctx.rng.sample(pub, min(len(pub), k))
     chn = ctx.rng.sample(chn, min(len(chn), k))
     fams = [("core", d4), ("pub", pub), ("chain", chn), ("sim", sim), ("sim2", sim2)]
